@@ -95,7 +95,10 @@ def needs_quoting(string: str, allow_reserved: bool, allow_num: bool) -> bool:
     string = string.lower()
 
     is_reserved = (
-        string not in {'__type__', '__std__'}
+        # The lexer rejects backtick-quoted names surrounded by double
+        # underscores, so quoting __type__, __std__, __edgedbtpl__ etc.
+        # can only make things worse.
+        not (string.startswith('__') and string.endswith('__'))
         and string in keywords.by_type[keywords.RESERVED_KEYWORD]
     )
 
